@@ -135,7 +135,7 @@ def run(ctx):
 
     # ---- seeded random histories on the real database (bigger universe than TLC enumerates)
     #           table  naddr maxlive steps maxwrites histories-per-shard shards via-account.Manager
-    plans = [("wide", 8, 4, 60, 4, 300, 8, False), ("wide", 5, 3, 40, 3, 350, 8, False), ("wide", 8, 4, 40, 3, 250, 4, True)] if ctx.quick() else \
+    plans = [("wide", 8, 4, 60, 4, 450, 8, False), ("wide", 5, 3, 40, 3, 450, 8, False), ("wide", 8, 4, 40, 3, 350, 4, True)] if ctx.quick() else \
             [("wide", 8, 4, 60, 4, 1200, 16, False), ("wide", 5, 3, 40, 3, 1200, 16, False), ("deep", 8, 7, 60, 4, 800, 16, False),
              ("deep", 5, 2, 30, 3, 800, 16, False), ("wide", 8, 7, 80, 2, 400, 16, False),
              ("wide", 8, 4, 40, 3, 800, 16, True), ("deep", 6, 6, 60, 4, 500, 16, True)]
